@@ -450,6 +450,10 @@ impl VM {
                     eth.inner.replace(Some(val.clone()));
                     val
                 } else {
+                    // the layer is there only if the enclosing header selects it
+                    if eth.get_ethertype_raw() != EtherTypes::Vlan {
+                        return Ok(Rc::new(Object::Null));
+                    }
                     // Borrow the inner object and return the cloned object
                     // immediately so the borrowing is kept to the scope of the
                     // if let statement. This allows us to borrow the inner object
@@ -472,6 +476,10 @@ impl VM {
                     eth.inner.replace(Some(val.clone()));
                     val
                 } else {
+                    // the layer is there only if the enclosing header selects it
+                    if eth.get_ethertype_raw() != EtherTypes::Ipv4 {
+                        return Ok(Rc::new(Object::Null));
+                    }
                     if let Some(inner) = eth.inner.borrow().as_ref() {
                         return Ok(inner.clone());
                     }
@@ -492,6 +500,10 @@ impl VM {
                     eth.inner.replace(Some(val.clone()));
                     val
                 } else {
+                    // the layer is there only if the enclosing header selects it
+                    if eth.get_ethertype_raw() != EtherTypes::Ipv6 {
+                        return Ok(Rc::new(Object::Null));
+                    }
                     if let Some(inner) = eth.inner.borrow().as_ref() {
                         return Ok(inner.clone());
                     }
@@ -579,6 +591,10 @@ impl VM {
                     vlan.inner.replace(Some(val.clone()));
                     val
                 } else {
+                    // the layer is there only if the enclosing header selects it
+                    if vlan.get_ethertype_raw() != EtherTypes::Vlan {
+                        return Ok(Rc::new(Object::Null));
+                    }
                     // Borrow the inner object and return the cloned object
                     // immediately so the borrowing is kept to the scope of the
                     // if let statement. This allows us to borrow the inner object
@@ -602,6 +618,10 @@ impl VM {
                     vlan.inner.replace(Some(val.clone()));
                     val
                 } else {
+                    // the layer is there only if the enclosing header selects it
+                    if vlan.get_ethertype_raw() != EtherTypes::Ipv4 {
+                        return Ok(Rc::new(Object::Null));
+                    }
                     if let Some(inner) = vlan.inner.borrow().as_ref() {
                         return Ok(inner.clone());
                     }
@@ -610,6 +630,30 @@ impl VM {
                         vlan.offset,
                     ) {
                         Ok(ipv4) => Rc::new(Object::Ipv4(Rc::new(ipv4))),
+                        Err(e) => Rc::new(Object::Err(ErrorObj::Packet(e))),
+                    };
+                    // Borrow the inner object again and replace its content
+                    vlan.inner.replace(Some(obj.clone()));
+                    obj
+                }
+            }
+            PacketPropType::Ipv6 => {
+                if let Some(val) = setval {
+                    vlan.inner.replace(Some(val.clone()));
+                    val
+                } else {
+                    // the layer is there only if the enclosing header selects it
+                    if vlan.get_ethertype_raw() != EtherTypes::Ipv6 {
+                        return Ok(Rc::new(Object::Null));
+                    }
+                    if let Some(inner) = vlan.inner.borrow().as_ref() {
+                        return Ok(inner.clone());
+                    }
+                    let obj = match Ipv6Packet::from_bytes(
+                        Rc::clone(&vlan.rawdata.borrow()),
+                        vlan.offset,
+                    ) {
+                        Ok(ipv6) => Rc::new(Object::Ipv6(Rc::new(ipv6))),
                         Err(e) => Rc::new(Object::Err(ErrorObj::Packet(e))),
                     };
                     // Borrow the inner object again and replace its content
@@ -777,6 +821,10 @@ impl VM {
                     ipv4.inner.replace(Some(val.clone()));
                     val
                 } else {
+                    // the layer is there only if the enclosing header selects it
+                    if ipv4.get_protocol_raw() != Protocols::Udp {
+                        return Ok(Rc::new(Object::Null));
+                    }
                     if let Some(inner) = ipv4.inner.borrow().as_ref() {
                         return Ok(inner.clone());
                     }
@@ -795,6 +843,10 @@ impl VM {
                     ipv4.inner.replace(Some(val.clone()));
                     val
                 } else {
+                    // the layer is there only if the enclosing header selects it
+                    if ipv4.get_protocol_raw() != Protocols::Tcp {
+                        return Ok(Rc::new(Object::Null));
+                    }
                     if let Some(inner) = ipv4.inner.borrow().as_ref() {
                         return Ok(inner.clone());
                     }
@@ -813,6 +865,10 @@ impl VM {
                     ipv4.inner.replace(Some(val.clone()));
                     val
                 } else {
+                    // the layer is there only if the enclosing header selects it
+                    if ipv4.get_protocol_raw() != Protocols::Ipv6 {
+                        return Ok(Rc::new(Object::Null));
+                    }
                     if let Some(inner) = ipv4.inner.borrow().as_ref() {
                         return Ok(inner.clone());
                     }
@@ -938,6 +994,10 @@ impl VM {
                     ipv6.inner.replace(Some(val.clone()));
                     val
                 } else {
+                    // the layer is there only if the enclosing header selects it
+                    if ipv6.get_next_header_raw() != NextHeaders::Udp {
+                        return Ok(Rc::new(Object::Null));
+                    }
                     if let Some(inner) = ipv6.inner.borrow().as_ref() {
                         return Ok(inner.clone());
                     }
@@ -956,6 +1016,10 @@ impl VM {
                     ipv6.inner.replace(Some(val.clone()));
                     val
                 } else {
+                    // the layer is there only if the enclosing header selects it
+                    if ipv6.get_next_header_raw() != NextHeaders::Tcp {
+                        return Ok(Rc::new(Object::Null));
+                    }
                     if let Some(inner) = ipv6.inner.borrow().as_ref() {
                         return Ok(inner.clone());
                     }
